@@ -232,6 +232,29 @@ def search(ctx, deep):
                 else:
                     continue
                 break
+    # purity: a call leaves the caller's array as it was, returns memory of its own, and an earlier result does not
+    # change when the same or another object of the family is called again on an equally shaped batch
+    for fam in B.FAMS:
+        for th in B.theta_all(fam)[:6] + ([1.0] if fam == 'gumbel' else []):
+            Xa = np.array([[B.point(rng, 'open'), B.point(rng, 'open')] for _ in range(5)])
+            Xb = np.array([[B.point(rng, 'open'), B.point(rng, 'open')] for _ in range(5)])
+            for m in ('cumulative_distribution',):
+                for label, other in (('same-object', None), ('other-object', lambda: B.make(fam, th))):
+                    checked += 1
+                    try:
+                        probs = B.purity_problems(lambda: B.make(fam, th), m, [Xa], [Xb], other)
+                    except Exception as e:  # noqa
+                        probs = [('raises', f'{vc.exc_kind(e)}: {e}')]
+                    # that the caller's array is untouched and not handed back as a view is C20's subject (its check
+                    # reports those); here: the VALUES a caller holds or gets do not depend on other calls
+                    probs = [(k, d) for k, d in probs if k not in ('input-mutated', 'result-aliases-input')]
+                    for kind, detail in probs:
+                        found += 1
+                        ctx.fail_input(f'{fam}.{m}', {'theta': th, 'first_batch': Xa.tolist(), 'second_batch': Xb.tolist(),
+                                                         'second_call_on': label}, detail,
+                                       'an earlier result keeps its values and a repeated call gives the same values, whatever was called in between', f'{fam}.{m}:{kind}')
+                    if probs:
+                        break
     # parameter forms: an integer-typed theta (Python int, np.int64, np.int32, 0-d array) is the same parameter as the
     # equal float
     for fam in B.FAMS:
